@@ -2,6 +2,7 @@ package main
 
 import (
 	"fmt"
+	"go/ast"
 	"go/token"
 	"go/types"
 	"os"
@@ -589,6 +590,14 @@ func runLint(which string) {
 	fns := libFuncs(p)
 	var hits []Finding
 	var sites int
+	if which == "CONTINUE" {
+		n, out := continueSkipsCounter(p)
+		fmt.Printf("CONTINUE: %d loops with trailing updates, %d findings\n", n, len(out))
+		for _, o := range out {
+			fmt.Println(o)
+		}
+		return
+	}
 	switch which {
 	case "L1":
 		sites, hits = rawReads(fns)
@@ -608,7 +617,7 @@ func runLint(which string) {
 		}
 	case "L19":
 		sites, hits = montgomeryLimbReads(fns)
-	case "SCAN", "ABS", "ZEROUSE":
+	case "SCAN", "ABS", "ZEROUSE", "ARRIDX":
 		registerScanProgram(p)
 		re := regexp.MustCompile(os.Getenv("GCV_FUNCS"))
 		for _, fn := range fns {
@@ -619,6 +628,8 @@ func runLint(which string) {
 			var h []Finding
 			if which == "SCAN" {
 				n, h = scanLoopBounds(p, fn)
+			} else if which == "ARRIDX" {
+				n, h = fixedArrayUnboundedIndex(p, fn)
 			} else if which == "ZEROUSE" {
 				n, h = zeroKnownOperands(p, fn)
 			} else {
@@ -1188,4 +1199,115 @@ func pooledObjectsReadBeforeDefined(p *Program, eff *Effects, fns []*ssa.Functio
 		}
 	}
 	return
+}
+
+// continueSkipsCounter (AST): a `continue` inside a for body whose top-level trailing statements
+// update (x++, x += k) a variable declared outside the loop, where the continue is not itself
+// preceded by the same update in its own block. Returns (loops with trailing updates, findings).
+func continueSkipsCounter(p *Program) (int, []string) {
+	var out []string
+	loops := 0
+	for _, pkg := range p.Roots {
+		pk := relPkg(pkg.PkgPath)
+		if !strings.HasPrefix(pkg.PkgPath, modPath) || !libPkg(pk) {
+			continue
+		}
+		for _, f := range pkg.Syntax {
+			for _, decl := range f.Decls {
+				fd, isFn := decl.(*ast.FuncDecl)
+				if !isFn || fd.Body == nil {
+					continue
+				}
+				fname := pk + "." + fd.Name.Name
+				ast.Inspect(fd, func(n ast.Node) bool {
+					var body *ast.BlockStmt
+					switch x := n.(type) {
+					case *ast.ForStmt:
+						body = x.Body
+					case *ast.RangeStmt:
+						body = x.Body
+					}
+					if body == nil || len(body.List) == 0 {
+						return true
+					}
+					// trailing updates at the top level of the body
+					trailing := map[string]bool{}
+					for i := len(body.List) - 1; i >= 0; i-- {
+						name := ""
+						switch s := body.List[i].(type) {
+						case *ast.IncDecStmt:
+							if id, ok := s.X.(*ast.Ident); ok {
+								name = id.Name
+							}
+						case *ast.AssignStmt:
+							if (s.Tok == token.ADD_ASSIGN || s.Tok == token.SUB_ASSIGN) && len(s.Lhs) == 1 {
+								if id, ok := s.Lhs[0].(*ast.Ident); ok {
+									name = id.Name
+								}
+							}
+						}
+						if name == "" {
+							break
+						}
+						trailing[name] = true
+					}
+					if len(trailing) == 0 {
+						return true
+					}
+					loops++
+					// continue statements belonging to this loop (not to nested loops)
+					var walk func(st ast.Stmt, prior map[string]bool)
+					walkList := func(list []ast.Stmt, prior map[string]bool) {
+						local := map[string]bool{}
+						for k, v := range prior {
+							local[k] = v
+						}
+						for _, st := range list {
+							switch s := st.(type) {
+							case *ast.IncDecStmt:
+								if id, ok := s.X.(*ast.Ident); ok {
+									local[id.Name] = true
+								}
+							case *ast.AssignStmt:
+								for _, l := range s.Lhs {
+									if id, ok := l.(*ast.Ident); ok {
+										local[id.Name] = true
+									}
+								}
+							}
+							walk(st, local)
+						}
+					}
+					walk = func(st ast.Stmt, prior map[string]bool) {
+						switch s := st.(type) {
+						case *ast.BranchStmt:
+							if s.Tok == token.CONTINUE && s.Label == nil {
+								for name := range trailing {
+									if !prior[name] {
+										out = append(out, fmt.Sprintf("%s|%s|%s", fname, name, p.Pos(s.Pos())))
+									}
+								}
+							}
+						case *ast.BlockStmt:
+							walkList(s.List, prior)
+						case *ast.IfStmt:
+							walkList(s.Body.List, prior)
+							if s.Else != nil {
+								walk(s.Else, prior)
+							}
+						case *ast.SwitchStmt:
+							for _, cc := range s.Body.List {
+								walkList(cc.(*ast.CaseClause).Body, prior)
+							}
+						case *ast.ForStmt, *ast.RangeStmt:
+							// nested loop: its continues are its own
+						}
+					}
+					walkList(body.List[:len(body.List)-len(trailing)], map[string]bool{})
+					return true
+				})
+			}
+		}
+	}
+	return loops, out
 }
